@@ -10,6 +10,8 @@
  *  You can obtain one at http://mozilla.org/MPL/2.0/
  */
 
+#include <algorithm>
+
 #include "kernel/environment.h"
 
 namespace vita
@@ -57,6 +59,34 @@ environment &environment::init()
   generations = 100;
   max_stuck_time = std::numeric_limits<unsigned>::max();
   validation_percentage = 20;
+
+  return *this;
+}
+
+///
+/// Adjusts the parameters `user` left undefined so that they're consistent
+/// with the values `user` set.
+///
+/// \param[in] user the environment before tuning (user's settings)
+/// \return         a reference to the current environment
+///
+/// \remark A value set by the user is never changed.
+///
+environment &environment::reconcile(const environment &user)
+{
+  if (!user.individuals)
+    individuals = std::max({individuals, user.min_individuals,
+                            user.tournament_size});
+  if (!user.min_individuals)
+    min_individuals = std::min(min_individuals, individuals);
+  if (!user.mate_zone)
+    mate_zone = std::max(mate_zone, user.tournament_size);
+  if (!user.tournament_size)
+    tournament_size = std::min({tournament_size, individuals, mate_zone});
+  if (!user.mep.code_length)
+    mep.code_length = std::max(mep.code_length, user.mep.patch_length + 1);
+  if (!user.mep.patch_length)
+    mep.patch_length = std::min(mep.patch_length, mep.code_length - 1);
 
   return *this;
 }
